@@ -159,4 +159,4 @@ def run(ctx):
     return ctx.finish(
         checker_cmd="lake build Oas3Model.Props.C07 && #print axioms on every theorem" + ("" if ctx.quick else " && leanchecker"),
         trusted_base=vlib.TRUSTED_BASE + ["petgraph DFS/SCC are replaced in the model by a checked closure (proved sound and minimal) and compared with the real results on every case", "syn-based extraction of defined items and mentioned type paths; external crates recognised by a prefix allow-list"],
-        rule="the 12 reference positions x 10 kinds of referenced schema x {default, --all-schemas, --only, --exclude} matrix of the quantifier (all 480 thorough; default + 1 sampled scope quick) + random compositions of 2-5 schemas over the 8 edge kinds; K: SchemaRegistry dependency map / cyclic set / reachable set vs the model; E: emitted files parsed with syn, every mentioned type name must be defined exactly once, every emitted type must be used by a selected operation; non-trivial = >=1 schema; distinct by input hash")
+        rule="the 12 reference positions x 10 kinds of referenced schema x {default, --all-schemas, --only, --exclude} matrix of the quantifier (all 480 thorough; default + 1 sampled scope quick) + random compositions of 2-5 schemas over the 8 edge kinds + documents with 4-6 operations whose responses repeat in two or more interleaved groups (all 16 assignments of 4 operations to two shapes x id order x inline member types; random 5-6 operation documents) and discriminated bases whose mapping is spelled with bare names / pointers / both, each under default, --all-schemas, --exclude and --only subsets (model: the surviving response enums); K: SchemaRegistry dependency map / cyclic set / reachable set vs the model; E: emitted files parsed with syn, every mentioned type name must be defined exactly once, every emitted type must be used by a selected operation; non-trivial = >=1 schema; distinct by input hash")
